@@ -17,8 +17,9 @@ package main
 //	(b) every index and slice bound applied to a fixed-size array in the interpreter core is within the
 //	    array, given (a), dominating comparisons, loop-edge facts, callers' arguments and callees' results.
 //
-// The prover computes constant upper bounds (and non-negativity); it has no relational domain, so
-// "i <= m.len before the increment" is out of reach: such sites are listed in boundAbstentions.
+// The prover computes constant upper bounds (and non-negativity). What needs a relation between two values
+// ("the index returned by get() is <= len before the increment") goes to the difference-constraint prover of
+// relbound.go as a second chance; what neither reaches is listed in boundAbstentions.
 
 import (
 	"fmt"
@@ -47,12 +48,9 @@ type boundProver struct {
 
 // boundAbstentions: bounds the constant-interval prover cannot establish; keyed "function | construct".
 var boundAbstentions = map[string]string{
-	"object.(SmallMap).Set | index into [4]object.keyValuePair":                               "relational: the index returned by get() is <= len before the increment, and the function only continues when len+1 <= 4; the interval prover only knows get() <= 4",
-	"object.(SmallMap).Set | index into [4]object.keyValuePair #4":                            "relational: same index as above, on the insertion store",
-	"object.(SmallMap).Delete | local SmallMap leaves the function with SmallMap.len <= 4 #3": "relational: len-1 >= 0 because get() reported the key found, which needs len >= 1",
-	"object.(SmallMap).Range | local SmallMap leaves the function with SmallMap.len <= 4":     "relational across a type switch: the only caller (object.Range, reached from evalIndexRangeExpression) passes 0 <= l <= r <= Len() of this very map, which is <= 4 because it is a SmallMap",
-	"object.(SmallMap).Range | low bound into [4]object.keyValuePair":                         "same caller argument as above",
-	"object.(SmallMap).Range | high bound into [4]object.keyValuePair":                        "same caller argument as above",
+	"object.(SmallMap).Range | local SmallMap leaves the function with SmallMap.len <= 4": "relational across a type switch: the only caller (object.Range, reached from evalIndexRangeExpression) passes 0 <= l <= r <= Len() of this very map, which is <= 4 because it is a SmallMap",
+	"object.(SmallMap).Range | low bound into [4]object.keyValuePair":                     "same caller argument as above",
+	"object.(SmallMap).Range | high bound into [4]object.keyValuePair":                    "same caller argument as above",
 }
 
 func (c *Ctx) newBoundProver() *boundProver {
@@ -990,6 +988,8 @@ func (bp *boundProver) callNonNeg(call *ssa.Call, idx int, depth int) bool {
 // checkBoundedContainers: obligations (a) and (b) over the given packages.
 func (c *Ctx) checkBoundedContainers(r *Report, rule string, pkgs map[string]bool) {
 	bp := c.newBoundProver()
+	rp := newRelProver(bp)
+	nRel := 0
 	generated := map[string]bool{}
 	for _, p := range c.Mod {
 		for _, f := range p.Syntax {
@@ -1040,6 +1040,14 @@ func (c *Ctx) checkBoundedContainers(r *Report, rule string, pkgs map[string]boo
 			u := bp.ub(st.Val, st.Block(), 0, map[ssa.Value]bool{})
 			lo := bp.nonNeg(st.Val, st.Block(), 0, map[ssa.Value]bool{})
 			why := ""
+			if (!u.ok || u.k > fb.max) && rp.upper(st.Val, st.Block(), fb.max) {
+				u = bres{fb.max, true}
+				nRel++
+			}
+			if !lo && rp.lower(st.Val, st.Block(), 0) {
+				lo = true
+				nRel++
+			}
 			if !u.ok || u.k > fb.max {
 				why = fmt.Sprintf("the stored value (%s) is not proven <= %d", st.Val.String(), fb.max)
 				if u.ok {
@@ -1100,6 +1108,10 @@ func (c *Ctx) checkBoundedContainers(r *Report, rule string, pkgs map[string]boo
 						// the field value at that point: a synthetic load is not available, so bound it by the stores
 						// that reach the escape, refined by comparisons on loads of the field that dominate it
 						u := bp.localFieldAt(al, fb, ld)
+						if !(u.ok && u.k <= fb.max && u.lo) && rp.fieldWithin(al, fb.field, ld, fb.max) {
+							u = lbres{fb.max, true, true}
+							nRel++
+						}
 						report(u.ok && u.k <= fb.max && u.lo, fname, desc, c.Pos(ld.Pos()),
 							fmt.Sprintf("the struct value is used (boxed, returned, stored or passed on) where its %s is not proven within [0,%d] (bound found: %v): later index/slice operations rely on it", n.Underlying().(*types.Struct).Field(fb.field).Name(), fb.max, u))
 					}
@@ -1166,6 +1178,14 @@ func (c *Ctx) checkBoundedContainers(r *Report, rule string, pkgs map[string]boo
 					limit--
 				}
 				why := ""
+				if (!u.ok || u.k > limit) && rp.upper(bd.v, in.Block(), limit) {
+					u = bres{limit, true}
+					nRel++
+				}
+				if !lo && rp.lower(bd.v, in.Block(), 0) {
+					lo = true
+					nRel++
+				}
 				if !u.ok || u.k > limit {
 					why = fmt.Sprintf("the %s (%s) is not proven <= %d", bd.what, bd.v.String(), limit)
 					if u.ok {
@@ -1182,7 +1202,7 @@ func (c *Ctx) checkBoundedContainers(r *Report, rule string, pkgs map[string]boo
 			}
 		})
 	}
-	r.Note("%s: %d invariant obligations (stores and escapes), %d index/slice uses on fixed arrays", rule, nStores, nUses)
+	r.Note("%s: %d invariant obligations (stores and escapes), %d index/slice uses on fixed arrays; %d bounds needed the relational prover (relbound.go)", rule, nStores, nUses, nRel)
 	if nStores < 8 || nUses < 20 {
 		r.Undecided("%s: only %d invariant obligations and %d uses found", rule, nStores, nUses)
 	}
